@@ -4,6 +4,8 @@ This module provides request handler classes for processing Gemini requests
 and generating responses, including Titan upload handlers.
 """
 
+import os
+import tempfile
 from abc import ABC, abstractmethod
 from pathlib import Path
 from typing import TYPE_CHECKING
@@ -389,10 +391,27 @@ class FileUploadHandler(UploadHandler):
                 meta="Invalid path",
             )
 
+        # A directory (including the upload directory itself) is not a valid target
+        if target.is_dir():
+            return GeminiResponse(
+                status=StatusCode.BAD_REQUEST.value,
+                meta="Invalid path",
+            )
+
         # 6. Save file
+        # The content is written to a temporary file next to the target and
+        # moved into place afterwards, so that a failure part-way (disk full,
+        # I/O error) neither truncates an existing file nor leaves a partial
+        # upload behind.
+        tmp_name: str | None = None
         try:
             target.parent.mkdir(parents=True, exist_ok=True)
-            target.write_bytes(request.content)
+            fd, tmp_name = tempfile.mkstemp(dir=target.parent, prefix=".titan-upload-")
+            with os.fdopen(fd, "wb") as tmp_file:
+                tmp_file.write(request.content)
+            os.chmod(tmp_name, 0o644)
+            os.replace(tmp_name, target)
+            tmp_name = None
 
             return GeminiResponse(
                 status=StatusCode.SUCCESS.value,
@@ -409,6 +428,12 @@ class FileUploadHandler(UploadHandler):
                 status=StatusCode.TEMPORARY_FAILURE.value,
                 meta=f"Upload failed: {str(e)}",
             )
+        finally:
+            if tmp_name is not None:
+                try:
+                    os.unlink(tmp_name)
+                except OSError:
+                    pass
 
     async def _handle_delete(self, path: str) -> GeminiResponse:
         """Handle a zero-byte delete request.
